@@ -23,6 +23,7 @@ import (
 	"github.com/vimeo/dials/transform"
 	yaml "gopkg.in/yaml.v2"
 
+	"verifharness/internal/cfgdoc"
 	"verifharness/internal/coqfmt"
 	"verifharness/internal/driver"
 	"verifharness/internal/rty"
@@ -193,26 +194,7 @@ func genTypeIn(r *coqfmt.Rng, depth, maxDepth, width int, used map[string]bool, 
 
 var tTime = reflect.TypeOf(time.Time{})
 
-// a time.Time is printed as an opaque leaf: the instant as Unix seconds and nanoseconds; the
-// zero instant (what an unset field holds) as the empty text
-var printer = rty.Printer{
-	LeafTy: func(t reflect.Type) (string, bool) {
-		if t == tTime {
-			return "(TTextU " + coqfmt.Str("time.Time") + " true)", true
-		}
-		return "", false
-	},
-	LeafVal: func(v reflect.Value) (string, bool) {
-		if v.Type() == tTime {
-			tm := v.Interface().(time.Time)
-			if tm.IsZero() {
-				return "(VText " + coqfmt.Str("") + ")", true
-			}
-			return fmt.Sprintf("(VList [VInt (%d)%%Z; VInt (%d)%%Z])", tm.Unix(), tm.Nanosecond()), true
-		}
-		return "", false
-	},
-}
+var printer = rty.TimePrinter
 
 var tDur = reflect.TypeOf(time.Duration(0))
 var tIP = reflect.TypeOf(net.IP(nil))
@@ -370,7 +352,7 @@ func genDoc(r *coqfmt.Rng, t reflect.Type, bad *int) *doc {
 		l := make([]*doc, n)
 		for i := range l {
 			l[i] = genDoc(r, t.Elem(), bad)
-			if t.Elem().Kind() == reflect.Struct && l[i].kind != dMap {
+			if t.Elem().Kind() == reflect.Struct && l[i].Kind != dMap {
 				// TOML cannot mix tables and other values in one array: the ill-typed value may sit
 				// inside an element, not replace it
 				none := 0
@@ -785,13 +767,13 @@ func run(raw json.RawMessage) driver.Result {
 	planted := bad
 	d := genDoc(r, T, &bad)
 	planted -= bad
-	if d.kind != dMap { // a planted non-mapping at top level
+	if d.Kind != dMap { // a planted non-mapping at top level
 		d = dM()
 	}
 	// two renderings in three draw among the alternative spellings of the same data
-	sp = nil
+	cfgdoc.Sp = nil
 	if spellState := r.U64(); spellState%3 != 0 {
-		sp = coqfmt.NewRng(spellState)
+		cfgdoc.Sp = coqfmt.NewRng(spellState)
 	}
 	switch in.K {
 	case "dupkey":
@@ -845,9 +827,9 @@ func run(raw json.RawMessage) driver.Result {
 			tags = append(tags, "planted-bad-value")
 		}
 		return driver.Result{
-			Coq:        fmt.Sprintf("Flat %s %s %s %s", coqfmt.Bool(in.Wrap), printer.FieldsTerm(T), d.term(), outcomeTerm(v, err, p)),
+			Coq:        fmt.Sprintf("Flat %s %s %s %s", coqfmt.Bool(in.Wrap), printer.FieldsTerm(T), d.Term(), outcomeTerm(v, err, p)),
 			Kind:       "flat",
-			Nontrivial: hasEmbedded(T) && len(d.kvs) >= 2,
+			Nontrivial: hasEmbedded(T) && len(d.KVs) >= 2,
 			Tags:       tags,
 		}
 	case "agree":
@@ -860,7 +842,7 @@ func run(raw json.RawMessage) driver.Result {
 				nerr++
 			}
 		}
-		tags := []string{fmt.Sprintf("keys-%d", min(len(d.kvs), 8))}
+		tags := []string{fmt.Sprintf("keys-%d", min(len(d.KVs), 8))}
 		if in.Wrap {
 			tags = append(tags, "set-slice-wrapped")
 		}
@@ -879,9 +861,9 @@ func run(raw json.RawMessage) driver.Result {
 			tags = append(tags, "mixed-outcomes")
 		}
 		return driver.Result{
-			Coq:        fmt.Sprintf("Agree %s %s %s %s", coqfmt.Bool(in.Wrap), printer.FieldsTerm(T), d.term(), strings.Join(terms, " ")),
+			Coq:        fmt.Sprintf("Agree %s %s %s %s", coqfmt.Bool(in.Wrap), printer.FieldsTerm(T), d.Term(), strings.Join(terms, " ")),
 			Kind:       "agree",
-			Nontrivial: len(d.kvs) >= 2 && docDepth(d) >= 2,
+			Nontrivial: len(d.KVs) >= 2 && docDepth(d) >= 2,
 			Tags:       tags,
 		}
 	default: // corrupt
@@ -916,7 +898,7 @@ func run(raw json.RawMessage) driver.Result {
 			tags = append(tags, "dials-ok")
 		}
 		return driver.Result{
-			Coq:        fmt.Sprintf("Corrupt %d %s %s %s %s", in.Fmt, coqfmt.Bool(in.Wrap), printer.FieldsTerm(T), gd.term(), outcomeTerm(v, err, p)),
+			Coq:        fmt.Sprintf("Corrupt %d %s %s %s %s", in.Fmt, coqfmt.Bool(in.Wrap), printer.FieldsTerm(T), gd.Term(), outcomeTerm(v, err, p)),
 			Kind:       "corrupt",
 			Nontrivial: true,
 			Tags:       tags,
@@ -940,15 +922,15 @@ func hasEmbedded(t reflect.Type) bool {
 }
 
 func hasKind(d *doc, k kind) bool {
-	if d.kind == k {
+	if d.Kind == k {
 		return true
 	}
-	for _, e := range d.kvs {
-		if hasKind(e.v, k) {
+	for _, e := range d.KVs {
+		if hasKind(e.V, k) {
 			return true
 		}
 	}
-	for _, e := range d.list {
+	for _, e := range d.List {
 		if hasKind(e, k) {
 			return true
 		}
@@ -958,17 +940,17 @@ func hasKind(d *doc, k kind) bool {
 
 func docDepth(d *doc) int {
 	m := 0
-	for _, e := range d.kvs {
-		if x := docDepth(e.v); x > m {
+	for _, e := range d.KVs {
+		if x := docDepth(e.V); x > m {
 			m = x
 		}
 	}
-	for _, e := range d.list {
+	for _, e := range d.List {
 		if x := docDepth(e); x > m {
 			m = x
 		}
 	}
-	if d.kind == dMap || d.kind == dList {
+	if d.Kind == dMap || d.Kind == dList {
 		return m + 1
 	}
 	return 0
